@@ -20,7 +20,7 @@ CLAIMS = {
              "and on the strings Monomer.to_smiles really returned together with the code's own result. Independently every sampled well-formed glycan (random trees + fixed bicyclic / 4-way / N-link cases) "
              "is compared as a stereo molecule with an RDKit molzip join of the residues converted alone.",
         note="partial: RDKit's writing of the marked residue is a boundary input (its meaning is assumed to be the token semantics Smi.sem); sanitize_smiles is validated per instance "
-             "(same sem), not proved; carbon numbering of modified residues is compared with a chemistry-level rule per residue, not proved; "
+             "(same sem), not proved; enumerate_carbon is modelled (tied by correspondence) and C01_numbering_table proves Model = chemistry-level numbering on the library rows; on modified residues the numbering is compared with the chemistry-level rule per residue, not proved; find_oxygen / mark / __check_root_id are judged by the molzip Spec; "
              "two open known findings (numbering of 1-amino-ketoses and 2,6-anhydro sugars). " + NOTE, ref="6 C01, 14"),
     "C03": dict(
         technique="Lean 4 theorems by induction over the syntax tree (walker = pre-order numbering of the compositional reading; one node per written residue; tree shape) + correspondence",
